@@ -901,7 +901,33 @@ func (x *Exec) freshCheck(st *State, key string, ref string, pos token.Pos) {
 	}
 	if x.freshActive(key) {
 		x.oblige(st, "frame", "", "write to "+compShort(key)+" of an object that existed before the call", "(> "+ref+" "+x.top0+")", pos)
+	} else if ar, ok := x.rootArgW[key]; ok {
+		x.oblige(st, "frame", "", "write to "+compShort(key)+" of an existing object other than the declared argument (writesarg)", or(eq(ref, ar), "(> "+ref+" "+x.top0+")"), pos)
 	}
+}
+
+// argWriteKeys: component key -> reference of the argument object, for a contract's writesarg
+// declarations evaluated on the given argument values (receiver first).
+func (x *Exec) argWriteKeys(ctr *Contract, args []*Val) map[string]string {
+	out := map[string]string{}
+	if ctr == nil {
+		return out
+	}
+	for _, aw := range ctr.ArgWrites {
+		ref := ""
+		for i, pd := range ctr.Params {
+			if pd.Name == aw.Param && i < len(args) && args[i] != nil && args[i].K == KPtr && args[i].P != nil && args[i].P.Kind == PHeap && len(args[i].P.Path) == 0 {
+				ref = args[i].P.Ref
+			}
+		}
+		if ref == "" {
+			panic(unsupported("writesarg %s: not a pointer parameter of %s", aw.Param, ctr.Key))
+		}
+		for k := range x.expandKeys(aw.Items) {
+			out[k] = ref
+		}
+	}
+	return out
 }
 
 func compShort(key string) string {
